@@ -216,10 +216,22 @@ func runStageFile(o *opts) {
 					s.Inputs["zz_new_input"] = &artifact.Artifact{Path: "zz_new_input", SkipCache: true}
 				})
 				for k, a := range l.Outputs {
+					if a == nil {
+						continue
+					}
 					kk, aa := k, *a
-					edit(func(s *stage.Stage) { s.Outputs[kk].IsDir = !aa.IsDir })
-					edit(func(s *stage.Stage) { s.Outputs[kk].DisableRecursion = !aa.DisableRecursion })
-					edit(func(s *stage.Stage) { s.Outputs[kk].SkipCache = !aa.SkipCache })
+					// (a loader that hands back a stage whose keys and paths disagree must show up as a
+					// wrong result, not as a crash of this harness)
+					flip := func(f func(a *artifact.Artifact)) {
+						edit(func(s *stage.Stage) {
+							if a := s.Outputs[kk]; a != nil {
+								f(a)
+							}
+						})
+					}
+					flip(func(a *artifact.Artifact) { a.IsDir = !aa.IsDir })
+					flip(func(a *artifact.Artifact) { a.DisableRecursion = !aa.DisableRecursion })
+					flip(func(a *artifact.Artifact) { a.SkipCache = !aa.SkipCache })
 					edit(func(s *stage.Stage) { delete(s.Outputs, kk) })
 					break
 				}
